@@ -87,11 +87,18 @@ func DiffDumps(w *World, cls string, sigFn func(DumpEntry) map[string]string, be
 	for _, d := range before {
 		a, ok := am[d.ID()]
 		w.Res.Checks++
+		// Is the entry as it read before still stored somewhere (then the read
+		// path picks another copy), or is it gone from every container?
+		stored := func(sig map[string]string) map[string]string {
+			// (under any version: a read at version v may have been served by a copy of another version)
+			sig["prior_value_stored"] = yn(d.ReadErr == "" && StoredCopy(w, d.CF, []byte(d.Key), 0, d.Value, d.Meta&kv.BitDelete != 0))
+			return sig
+		}
 		switch {
 		case !ok:
-			w.Res.Violate(w.step, cls, artSig(w, d.Key, withKind(sigOf(sigFn, d), "entry_lost")), "%s: %s disappeared", what, d)
+			w.Res.Violate(w.step, cls, stored(artSig(w, d.Key, withKind(sigOf(sigFn, d), "entry_lost"))), "%s: %s disappeared; copies now: %s tables: %s", what, d, DescribeCopies(w, d.CF, []byte(d.Key)), DescribeTables(w))
 		case a.Meta != d.Meta || a.Expires != d.Expires || !bytes.Equal(a.Value, d.Value) || a.ReadErr != d.ReadErr:
-			w.Res.Violate(w.step, cls, artSig(w, d.Key, withKind(sigOf(sigFn, d), "entry_changed")), "%s: %s became %s; copies now: %s", what, d, a, DescribeCopies(w, d.CF, []byte(d.Key)))
+			w.Res.Violate(w.step, cls, stored(artSig(w, d.Key, withKind(sigOf(sigFn, d), "entry_changed"))), "%s: %s became %s; copies now: %s", what, d, a, DescribeCopies(w, d.CF, []byte(d.Key)))
 		}
 	}
 	for _, a := range after {
@@ -99,6 +106,27 @@ func DiffDumps(w *World, cls string, sigFn func(DumpEntry) map[string]string, be
 			w.Res.Violate(w.step, cls, artSig(w, a.Key, withKind(sigOf(sigFn, a), "entry_appeared")), "%s: %s appeared", what, a)
 		}
 	}
+}
+
+// StoredCopy reports whether some container holds a readable copy of (cf,key)
+// with this value (or a tombstone when del); version 0 matches any version.
+func StoredCopy(w *World, cf kv.ColumnFamily, key []byte, version uint64, val []byte, del bool) bool {
+	if w.DB == nil {
+		return false
+	}
+	for _, cp := range w.DB.VerifLocate(cf, key) {
+		if version != 0 && cp.Version != version {
+			continue
+		}
+		isDel := cp.Meta&kv.BitDelete != 0
+		if del && isDel {
+			return true
+		}
+		if !del && !isDel && cp.Value != nil && bytes.Equal(cp.Value, val) {
+			return true
+		}
+	}
+	return false
 }
 
 func withKind(sig map[string]string, kind string) map[string]string {
@@ -128,9 +156,11 @@ func TxnOp(w *World, op sim.Op, nkeys int, step int) (map[int][]byte, map[int]ui
 		key := []byte(keyNames[ki])
 		switch {
 		case op.A&(1<<ki) != 0:
-			val := MakeValue(fmt.Sprintf("t%d.%d:", step, ki), op.C+int64(ki), w.Opt.ValueThreshold)
-			if len(val) == 0 {
-				val = []byte{'e'}
+			// unique per write, so that a value read back names its write
+			tag := fmt.Sprintf("t%d.%d:", step, ki)
+			val := MakeValue(tag, op.C+int64(ki), w.Opt.ValueThreshold)
+			if len(val) < len(tag) {
+				val = []byte(tag)
 			}
 			e := kv.NewEntry(key, val)
 			if ttl > 0 {
